@@ -64,6 +64,8 @@ func TestCheck(t *testing.T) {
 	}
 	fams := sarama.VerifC09Families(extra)
 	units := sarama.VerifC09Units(maxDev, extra)
+	sweep := sarama.VerifC09SweepUnits(ev.Tier() == "thorough")
+	units = append(units, sweep...)
 	// level-1 units (base + every single deviation) first, heavy ones first; then the pair units, rotated by the seed
 	var l1, l2 []sarama.VerifUnit
 	for _, u := range units {
@@ -155,6 +157,8 @@ func TestCheck(t *testing.T) {
 	c.Set("rule", fmt.Sprintf("every family (protocol body, record format, member blob, header) × every version 0..max × every record config × the base value and every value differing from it in ≤%d slots (alternatives per kind); a case is non-trivial when sarama's encoder accepts the value so that all oracles run; distinct = 64-bit hash of (family, version, config, canonical dump of the value), counted per work unit (units are disjoint by construction)", maxDev))
 	c.Set("exhaustive", exhaustive)
 	c.Set("max_deviations", maxDev)
+	c.Set("size_sweep_units", len(sweep))
+	c.Set("size_sweep_rule", "record batches (v2) whose one varying part - value, key, header value, header key, second record's value, number of records - takes every size in [0,300], [8100,8300], [16300,16500] (the widths of the varint length prefixes change inside these ranges), codec none (thorough: every codec); same oracles as a case")
 	c.Set("units_planned", len(ids))
 	c.Set("units_completed", completed)
 	c.Set("cases_planned_upper_bound", planned)
